@@ -53,9 +53,18 @@ META = {
     'exhaustive': False,
 }
 
-# (name, lazyUpdate, cacheValues, ncols)
-CLASSES = [('E', 0, 1, 2), ('L', 1, 1, 3), ('U', 0, 0, 2), ('LU', 1, 0, 2)]
-COLS = ['x', 'y', 'z']
+# (name, lazyUpdate, cacheValues, ncols, foreign key of column 0: None | ('n', T) cascade='null' | ('c', T) cascade=True)
+CLASSES = [('E', 0, 1, 2, None), ('L', 1, 1, 3, None), ('U', 0, 0, 2, None), ('LU', 1, 0, 2, None),
+           ('RN', 0, 1, 2, ('n', 0)), ('RL', 1, 1, 2, ('n', 0)), ('RU', 0, 0, 2, ('n', 0)), ('RC', 0, 1, 2, ('c', 0))]
+PLAIN = ['x', 'y', 'z']
+# python attribute names / database column names per class
+ATTRS = [(['fkID', 'x'] if fk else PLAIN[:n]) for (_, _, _, n, fk) in CLASSES]
+DBN = [(['fk_id', 'x'] if fk else PLAIN[:n]) for (_, _, _, n, fk) in CLASSES]
+
+
+def tbl(k):
+    return 't_%s' % CLASSES[k][0].lower()
+
 MAXID = 5
 _envs = {}
 
@@ -86,20 +95,25 @@ def env(do_cache):
     from sqlobject import SQLObject, IntCol
     conn = make_conn_class()(':memory:', cache=do_cache)
     classes = []
-    for (nm, lz, cv, n) in CLASSES:
+    from sqlobject import ForeignKey
+    for (nm, lz, cv, n, fk) in CLASSES:
         name = sqlo.uniq('C05%s%d_' % (nm, int(do_cache)))
         attrs = {'_connection': conn,
                  'sqlmeta': type('sqlmeta', (), {'lazyUpdate': bool(lz), 'cacheValues': bool(cv),
                                                  'table': 't_%s' % nm.lower()})}
-        for c in COLS[:n]:
-            attrs[c] = IntCol(default=None)
+        if fk:
+            attrs['fk'] = ForeignKey(classes[fk[1]].__name__, cascade=('null' if fk[0] == 'n' else True), default=None)
+            attrs['x'] = IntCol(default=None)
+        else:
+            for c in PLAIN[:n]:
+                attrs[c] = IntCol(default=None)
         attrs['__module__'] = __name__
         cls = type(name, (SQLObject,), attrs)
         globals()[name] = cls      # picklable by reference
         cls.createTable()
         classes.append(cls)
     e = {'conn': conn, 'classes': classes, 'raw': conn._memoryConn,
-         'tables': {('t_%s' % nm.lower()): k for k, (nm, _, _, _) in enumerate(CLASSES)}}
+         'tables': {tbl(k): k for k in range(len(CLASSES))}}
     _envs[do_cache] = e
     return e
 
@@ -121,6 +135,7 @@ _re_ins = re.compile(r'^INSERT INTO (\w+) \(([^)]*)\) VALUES \(([^)]*)\)$')
 _re_upd = re.compile(r'^UPDATE (\w+) SET (.*) WHERE id = \((-?\d+)\)$')
 _re_del = re.compile(r'^DELETE FROM (\w+) WHERE id = \((-?\d+)\)$')
 _re_sel1 = re.compile(r'^SELECT ([\w, ]+) FROM (\w+) WHERE \(\(\w+\.id\) = \((-?\d+)\)\)$')
+_re_selr = re.compile(r'^SELECT (\w+)\.id, .* FROM (\w+) WHERE \(\(\w+\.fk_id\) = \((-?\d+)\)\)$')
 _re_sela = re.compile(r'^SELECT (\w+)\.id, .* FROM (\w+) WHERE 1 = 1( ORDER BY (\w+\.)?id)?$')
 
 
@@ -144,18 +159,18 @@ def canon_stmt(e, q, auto_id=None):
         if rid is None:
             rid = '?' if auto_id is None else str(auto_id)
         n = CLASSES[k][3]
-        if sorted(d) != sorted(COLS[:n]):
+        if sorted(d) != sorted(DBN[k]):
             return 'SQL?' + q
-        return 'I %d %s %s' % (k, rid, ','.join('%d=%s' % (i, d[COLS[i]]) for i in range(n)))
+        return 'I %d %s %s' % (k, rid, ','.join('%d=%s' % (i, d[DBN[k][i]]) for i in range(n)))
     m = _re_upd.match(q)
     if m and m.group(1) in tabs:
         k = tabs[m.group(1)]
         parts = []
         for a in m.group(2).split(', '):
             nm, v = a.split(' = ')
-            if nm not in COLS:
+            if nm not in DBN[k]:
                 return 'SQL?' + q
-            parts.append('%d=%s' % (COLS.index(nm), sqlval(v)))
+            parts.append('%d=%s' % (DBN[k].index(nm), sqlval(v)))
         return 'U %d %s %s' % (k, m.group(3), ','.join(parts))
     m = _re_del.match(q)
     if m and m.group(1) in tabs:
@@ -165,10 +180,17 @@ def canon_stmt(e, q, auto_id=None):
         k = tabs[m.group(2)]
         names = [x.strip() for x in m.group(1).split(',')]
         n = CLASSES[k][3]
-        if names == COLS[:n]:
+        if names == DBN[k]:
             return 'S %d %s' % (k, m.group(3))
-        if len(names) == 1 and names[0] in COLS[:n]:
-            return 'Sc %d %s %d' % (k, m.group(3), COLS.index(names[0]))
+        if len(names) == 1 and names[0] in DBN[k]:
+            return 'Sc %d %s %d' % (k, m.group(3), DBN[k].index(names[0]))
+        return 'SQL?' + q
+    m = _re_selr.match(q)
+    if m and m.group(2) in tabs:
+        k = tabs[m.group(2)]
+        fk = CLASSES[k][4]
+        if fk and m.group(1) == m.group(2):
+            return 'Sr %d %d %s' % (k, fk[1], m.group(3))
         return 'SQL?' + q
     m = _re_sela.match(q)
     if m and m.group(2) in tabs:
@@ -231,13 +253,13 @@ class Runner(object):
         cur.close()
         self.conn.stmts = []
         self.conn.fail_update = False
-        cfg = ' '.join('%d %d %d' % (lz, cv, n) for (_, lz, cv, n) in CLASSES)
+        cfg = ' '.join('%d %d %d %s' % (lz, cv, n, ('%s%d' % fk) if fk else '-') for (_, lz, cv, n, fk) in CLASSES)
         self.lines.append(('reset %d %s' % (int(self.do_cache), cfg), 'ok', 'protocol'))
 
     def rawrow(self, k, rid):
         n = CLASSES[k][3]
         cur = self.raw.cursor()
-        cur.execute('SELECT %s FROM t_%s WHERE id = %d' % (', '.join(COLS[:n]), CLASSES[k][0].lower(), rid))
+        cur.execute('SELECT %s FROM %s WHERE id = %d' % (', '.join(DBN[k]), tbl(k), rid))
         r = cur.fetchone()
         cur.close()
         return None if r is None else tuple(r)
@@ -321,7 +343,7 @@ class Runner(object):
 
     def op_create(self, k, rid, kvs):
         cls = self.e['classes'][k]
-        kw = dict((COLS[c], self.pyval(v)) for c, v in kvs)
+        kw = dict((ATTRS[k][c], self.pyval(v)) for c, v in kvs)
         if rid is not None:
             kw['id'] = rid
         before = None if rid is None else self.rawrow(k, rid)
@@ -368,6 +390,8 @@ class Runner(object):
                 self.adopt(obj, k, obj.id, 'fetch %%d %d %d 1' % (k, obj.id), [])
             else:
                 self.emit('refresh %d' % h, 'ok', [])
+                if not self.held[h].pend:
+                    self.held[h].tainted = False     # a clean instance is reloaded from the select row
 
     def need(self, h):
         return self.held.get(h)
@@ -395,19 +419,19 @@ class Runner(object):
         if exp[0] == 'gone':
             if got[0] != 'raise' or got[1] not in ('NotFound', 'Assert'):
                 self.fail('read-of-vanished-row-returns-data', hd.k,
-                          '%s: reading %s of instance %d (row %d gone) gave %r instead of raising' % (where, COLS[c], h, hd.rid, got))
+                          '%s: reading %s of instance %d (row %d gone) gave %r instead of raising' % (where, ATTRS[hd.k][c], h, hd.rid, got))
             return
         if hd.destroyed and got[0] == 'raise' and got[1] == 'Assert':
             return
         if got != exp:
             self.fail('stale-read', hd.k, '%s: reading %s of instance %d (row %d) gave %r, the database/pending value is %r'
-                      % (where, COLS[c], h, hd.rid, got, exp))
+                      % (where, ATTRS[hd.k][c], h, hd.rid, got, exp))
 
     def op_read(self, h, c, where='read op'):
         hd = self.need(h)
         if hd is None or c >= CLASSES[hd.k][3]:
             return False
-        out, val, stmts = self.outcome(lambda: getattr(hd.obj, COLS[c]))
+        out, val, stmts = self.outcome(lambda: getattr(hd.obj, ATTRS[hd.k][c]))
         txt = ('val ' + sv(val)) if out == 'ok' else out
         self.emit('read %d %d' % (h, c), txt, self.canon(stmts), 'attribute read (value, statements): model = main.py')
         self.check_read(h, hd, c, out, val, where)
@@ -426,7 +450,7 @@ class Runner(object):
         if hd.destroyed or before is None:
             hd.tainted = True     # writing through a dead instance is outside the property
         self.conn.fail_update = bool(fail)
-        out, _, stmts = self.outcome(lambda: setattr(hd.obj, COLS[c], self.pyval(v)))
+        out, _, stmts = self.outcome(lambda: setattr(hd.obj, ATTRS[hd.k][c], self.pyval(v)))
         st = self.canon(stmts)
         self.emit('setattr %d %d %s %d' % (h, c, sv(v), int(fail)), out, st)
         self.lazy_noupdate_check(hd, st, before, 'assignment')
@@ -446,7 +470,7 @@ class Runner(object):
         if hd.destroyed or before is None:
             hd.tainted = True
         self.conn.fail_update = bool(fail)
-        kw = dict((COLS[c], self.pyval(v)) for c, v in kvs)
+        kw = dict((ATTRS[hd.k][c], self.pyval(v)) for c, v in kvs)
         out, _, stmts = self.outcome(lambda: hd.obj.set(**kw))
         st = self.canon(stmts)
         self.emit('set %d %d %s' % (h, int(fail), ' '.join('%d=%s' % (c, sv(v)) for c, v in kvs)), out, st)
@@ -553,18 +577,79 @@ class Runner(object):
         hd = self.need(h)
         if hd is None:
             return False
+        k, rid = hd.k, hd.rid
+        # the dependents loop, as the harness expects it from the raw tables: per dependent class (creation
+        # order) the referencing rows by id; which of them have an instance in the connection cache
+        plan = []
+        for k2 in range(len(CLASSES)):
+            fk = CLASSES[k2][4]
+            if not fk or fk[1] != k:
+                continue
+            cur = self.raw.cursor()
+            cur.execute('SELECT id FROM %s WHERE fk_id = %d ORDER BY id' % (tbl(k2), rid))
+            ids = [r[0] for r in cur.fetchall()]
+            cur.close()
+            rows = []
+            for i in ids:
+                cached = self.conn.cache.tryGet(i, self.e['classes'][k2])
+                rows.append((i, None if cached is None else self.find(cached), cached))
+            plan.append((k2, fk[0], rows))
         out, _, stmts = self.outcome(lambda: hd.obj.destroySelf())
         st = self.canon(stmts)
-        self.emit('destroy %d' % h, out, st)
+        toks = []
+        dropafter = []
+        for (k2, kind, rows) in plan:
+            toks.append('S%d' % k2)
+            for (i, h2, cached) in rows:
+                if h2 is not None:
+                    toks.append('r%d' % h2)
+                    hd2 = self.held[h2]
+                    if kind == 'c':
+                        hd2.destroyed = True
+                        hd2.tainted = True
+                        hd2.incache = False
+                    else:
+                        if not hd2.pend:
+                            hd2.tainted = False        # refreshed from the select row
+                        if CLASSES[k2][1]:
+                            if hd2.tainted:
+                                hd2.pend = dict((ATTRS[k2].index(nm), v) for nm, v in hd2.obj._SO_createValues.items())
+                            elif hd2.pend.get(0, rid) == rid:
+                                hd2.pend[0] = None     # row.set(fkID=None) on a lazy object: pending, not written
+                    continue
+                # the library built an instance of its own for this row
+                for h3 in self.others_on_row(k2, i):
+                    self.drop(h3)
+                obj2 = self.conn.cache.tryGet(i, self.e['classes'][k2]) if out == 'ok' and kind == 'n' else None
+                hn = self.nexth
+                self.nexth += 1
+                toks.append('R%d:%d:%d' % (hn, k2, i))
+                if obj2 is not None:
+                    self.held[hn] = Held(obj2, k2, i)
+                    if CLASSES[k2][1]:
+                        self.held[hn].pend[0] = None
+                else:
+                    dropafter.append(hn)
+        for t in toks:
+            nm = {'S': None, 'r': 'destroy: referencing row with a HELD instance', 'R': 'destroy: referencing row, instance built by the library'}[t[0]]
+            if nm:
+                self.stats[nm] = self.stats.get(nm, 0) + 1
+        self.emit(('destroy %d %s' % (h, ' '.join(toks))).strip(), out, st)
+        for hn in dropafter:
+            self.lines.append(('drop %d' % hn, 'ok |  | u=0', 'op outcome, statements, UPDATE count: model = main.py'))
         if out == 'ok':
             # C16: deletes are immediate
-            if self.rawrow(hd.k, hd.rid) is not None or sum(1 for s in st if s.startswith('D ')) != 1:
-                self.fail('delete-not-immediate', hd.k, 'after destroySelf() the row is %r; statements %r' % (self.rawrow(hd.k, hd.rid), st))
+            if self.rawrow(k, rid) is not None or sum(1 for s_ in st if s_ == 'D %d %d' % (k, rid)) != 1:
+                self.fail('delete-not-immediate', k, 'after destroySelf() the row is %r; statements %r' % (self.rawrow(k, rid), st))
             if not hd.destroyed:
-                self.taint_row(hd.k, hd.rid, h)
+                self.taint_row(k, rid, h)
             hd.destroyed = True
             hd.tainted = True
             hd.incache = False
+        else:
+            self.notes.add('destroySelf() raised %s inside the dependents loop' % out)
+            for hd2 in self.held.values():
+                hd2.tainted = True
 
     def op_pickle(self, h, fail):
         hd = self.need(h)
@@ -594,13 +679,13 @@ class Runner(object):
     def op_oobupdate(self, k, rid, c, v):
         if c >= CLASSES[k][3]:
             return False
-        self.rawexec('UPDATE t_%s SET %s = %s WHERE id = %d' % (CLASSES[k][0].lower(), COLS[c], 'NULL' if v is None else v, rid))
+        self.rawexec('UPDATE %s SET %s = %s WHERE id = %d' % (tbl(k), DBN[k][c], 'NULL' if v is None else v, rid))
         self.lines.append(('oobupdate %d %d %d %s' % (k, rid, c, sv(v)), 'ok |  | u=0', 'op outcome, statements, UPDATE count: model = main.py'))
         if self.rawrow(k, rid) is not None:
             self.taint_row(k, rid)
 
     def op_oobdelete(self, k, rid):
-        self.rawexec('DELETE FROM t_%s WHERE id = %d' % (CLASSES[k][0].lower(), rid))
+        self.rawexec('DELETE FROM %s WHERE id = %d' % (tbl(k), rid))
         self.lines.append(('oobdelete %d %d' % (k, rid), 'ok |  | u=0', 'op outcome, statements, UPDATE count: model = main.py'))
         self.taint_row(k, rid)
 
@@ -610,8 +695,8 @@ class Runner(object):
             return False
         if self.rawrow(k, rid) is None:
             d = dict(kvs)
-            self.rawexec('INSERT INTO t_%s (id, %s) VALUES (%d, %s)' % (
-                CLASSES[k][0].lower(), ', '.join(COLS[:n]), rid,
+            self.rawexec('INSERT INTO %s (id, %s) VALUES (%d, %s)' % (
+                tbl(k), ', '.join(DBN[k]), rid,
                 ', '.join('NULL' if d.get(c) is None else str(d[c]) for c in range(n))))
         self.lines.append(('oobinsert %d %d %s' % (k, rid, ' '.join('%d=%s' % (c, sv(v)) for c, v in kvs)), 'ok |  | u=0',
                            'op outcome, statements, UPDATE count: model = main.py'))
@@ -624,10 +709,10 @@ class Runner(object):
         d = o.__dict__
         cols = []
         for c in range(n):
-            key = '_SO_val_' + COLS[c]
+            key = '_SO_val_' + ATTRS[hd.k][c]
             cols.append(sv(d[key]) if key in d else '-')
         pend = d.get('_SO_createValues', {})
-        pk = sorted((COLS.index(nm), v) for nm, v in pend.items())
+        pk = sorted((ATTRS[hd.k].index(nm), v) for nm, v in pend.items())
         incache = self.conn.cache.tryGet(o.id, type(o)) is o
         return 'cls=%d id=%d cached=%s expired=%d dirty=%d pending=%s obsolete=%d incache=%d' % (
             hd.k, o.id, ','.join(cols), int(bool(o.sqlmeta.expired)), int(bool(o.sqlmeta.dirty)), kvtxt(pk),
@@ -653,15 +738,15 @@ class Runner(object):
             # C05 oracle, non-destructive form: what a read would return from the cache
             if cv and not hd.tainted:
                 for c in range(n):
-                    key = '_SO_val_' + COLS[c]
+                    key = '_SO_val_' + ATTRS[k][c]
                     if key in o.__dict__:
                         exp = self.expected(hd, c)
                         if exp[0] == 'gone':
                             self.fail('read-of-vanished-row-returns-data', k,
-                                      '%s: instance %d (row %d gone) still caches %s=%r' % (where, h, hd.rid, COLS[c], o.__dict__[key]))
+                                      '%s: instance %d (row %d gone) still caches %s=%r' % (where, h, hd.rid, ATTRS[k][c], o.__dict__[key]))
                         elif exp[0] == 'val' and exp[1] != o.__dict__[key]:
                             self.fail('stale-read', k, '%s: instance %d (row %d) caches %s=%r, the database/pending value is %r'
-                                      % (where, h, hd.rid, COLS[c], o.__dict__[key], exp[1]))
+                                      % (where, h, hd.rid, ATTRS[k][c], o.__dict__[key], exp[1]))
         for k in range(len(CLASSES)):
             for rid in range(1, MAXID + 1):
                 r = self.rawrow(k, rid)
@@ -674,9 +759,14 @@ class Runner(object):
 VALS = [None, 0, 1, 2, 3, 5, 7, -1, -4, 9]
 
 
-def gen_val(rng, pbad=0.08):
+FKVALS = [None, 1, 1, 2, 2, 3, 4, 5]
+
+
+def gen_val(rng, pbad=0.08, k=None, c=None):
     if rng.random() < pbad:
         return 'B'
+    if k is not None and c == 0 and CLASSES[k][4]:
+        return rng.choice(FKVALS)
     return rng.choice(VALS)
 
 
@@ -701,12 +791,16 @@ def gen_op(rng, r, weights):
             k = pick_k()
             n = CLASSES[k][3]
             cols = [c for c in range(n) if rng.random() < 0.8]
-            kvs = [[c, gen_val(rng, 0.05)] for c in cols]
+            kvs = [[c, gen_val(rng, 0.05, k, c)] for c in cols]
+            if CLASSES[k][4]:
+                targets = [r.held[h2].rid for h2 in live if r.held[h2].k == CLASSES[k][4][1]]
+                if targets and rng.random() < 0.75:
+                    kvs = [kv for kv in kvs if kv[0] != 0] + [[0, rng.choice(targets)]]
             rid = None if rng.random() < 0.5 else rng.randint(1, MAXID)
             if rid is None:
                 # keep the table small
                 cur = r.raw.cursor()
-                cur.execute("SELECT seq FROM sqlite_sequence WHERE name = 't_%s'" % CLASSES[k][0].lower())
+                cur.execute("SELECT seq FROM sqlite_sequence WHERE name = '%s'" % tbl(k))
                 m = cur.fetchone()
                 cur.close()
                 if m is not None and m[0] >= MAXID:
@@ -723,25 +817,32 @@ def gen_op(rng, r, weights):
             return ['expireallcls', pick_k()]
         if name == 'oobupdate':
             k = pick_k()
-            return ['oobupdate', k, rng.randint(1, MAXID), rng.randrange(CLASSES[k][3]), rng.choice(VALS)]
+            c = rng.randrange(CLASSES[k][3])
+            return ['oobupdate', k, rng.randint(1, MAXID), c, gen_val(rng, 0, k, c)]
         if name == 'oobdelete':
             return ['oobdelete', pick_k(), rng.randint(1, MAXID)]
         if name == 'oobinsert':
             k = pick_k()
-            return ['oobinsert', k, rng.randint(1, MAXID), [[c, rng.choice(VALS)] for c in range(CLASSES[k][3])]]
+            return ['oobinsert', k, rng.randint(1, MAXID), [[c, gen_val(rng, 0, k, c)] for c in range(CLASSES[k][3])]]
         h = pick_h(0.03 if name in ('setattr', 'set', 'syncupdate', 'destroy', 'pickle') else 0.15)
         if h is None:
             continue
+        if name == 'destroy' and rng.random() < 0.5:
+            referenced = [h2 for h2 in live if r.held[h2].k == 0]
+            if referenced:
+                h = rng.choice(referenced)
         n = CLASSES[r.held[h].k][3]
         fail = 1 if rng.random() < 0.07 else 0
         if name == 'read':
             return ['read', h, rng.randrange(n)]
+        kk = r.held[h].k
         if name == 'setattr':
-            return ['setattr', h, rng.randrange(n), gen_val(rng), fail]
+            c = rng.randrange(n)
+            return ['setattr', h, c, gen_val(rng, 0.08, kk, c), fail]
         if name == 'set':
             cols = [c for c in range(n) if rng.random() < 0.6]
             rng.shuffle(cols)
-            return ['set', h, [[c, gen_val(rng, 0.06)] for c in cols], fail]
+            return ['set', h, [[c, gen_val(rng, 0.06, kk, c)] for c in cols], fail]
         if name in ('syncupdate', 'sync', 'pickle'):
             return [name, h, fail]
         if name in ('expire', 'destroy', 'drop'):
@@ -752,7 +853,7 @@ def gen_op(rng, r, weights):
 OPS_C05 = (['create'] * 10 + ['get'] * 7 + ['select'] * 6 + ['read'] * 8 + ['setattr'] * 14 + ['set'] * 9 +
            ['syncupdate'] * 4 + ['sync'] * 7 + ['expire'] * 8 + ['expireall'] * 2 + ['expireallcls'] * 1 +
            ['destroy'] * 4 + ['pickle'] * 2 + ['drop'] * 1 + ['oobupdate'] * 4 + ['oobdelete'] * 2 + ['oobinsert'] * 1)
-W_C05 = {'ops': OPS_C05, 'classes': [0, 0, 0, 1, 1, 1, 2, 2, 3]}
+W_C05 = {'ops': OPS_C05, 'classes': [0, 0, 0, 0, 1, 1, 2, 2, 3, 4, 4, 5, 5, 6, 7, 7]}
 
 
 def interesting(ops):
